@@ -82,7 +82,7 @@ def gen_oracle_case(ctx, dspecs, backends=("cbc", "glpk"), families=None):
     labels = cases.dissim_labels(dspec)
     n = rng.choice([2, 2, 3, 3, 4, 5])
     mx = ORACLE_MAX_UNITS[n]
-    fam = rng.choice(families) if families else None
+    fam = rng.choice(families) if families else (rng.choice(["mixeddur", "longoverlap"]) if rng.random() < 0.25 else None)
     cspec = cases.gen_continuum(rng, n_annot=n, max_units=mx if rng.random() < 0.6 else rng.randint(1, mx),
                                 labels=labels or cases.LABELS_SMALL, min_total=2, family=fam)
     return {"continuum": cspec, "dissim": dspec, "backend": rng.choice(list(backends))}
